@@ -67,6 +67,8 @@ def effect_events(ctx, fi, state_attrs, eff):
 
 
 def run(ctx):
+    from .configtime import no_identity_test_against_literals as _no_is_literal
+    _no_is_literal(ctx, 'C16.R1', classes=('Recipe', 'RecipeStep'))
     from .atomic import validate_before_mutate as _atomic
     _atomic(ctx, 'C16.R3', ('Recipe.uses', 'Recipe.transfer', 'Recipe.create_container', 'Recipe.create_solution', 'Recipe.create_solution_from', 'Recipe.remove', 'Recipe.dilute', 'Recipe.fill_to', 'Recipe.start_stage', 'Recipe.end_stage'))
     from .iterables import single_pass_iterables as _single_pass
@@ -461,3 +463,30 @@ def _stage_rules(ctx, recipe, ffb):
     ctx.ob('C16.R5', bake, (closes[0][1].lineno if closes else bake.node.lineno),
            'bake closes an open stage before running the steps', ok,
            why='steps of a still-open stage are not attributed to it', key='bake closes stage')
+    # ... and only an open one: the close is guarded by a comparison of the open stage with the "no stage open" marker
+    # that __init__ / end_stage store (a truth test takes the marker 'all' for an open stage, and '' for none)
+    init = recipe.methods.get('__init__')
+    marker = None
+    if init is not None:
+        for st in ast.walk(init.node):
+            if isinstance(st, ast.Assign) and any(isinstance(t, ast.Attribute) and t.attr == 'current_stage' for t in st.targets) \
+                    and isinstance(st.value, ast.Constant):
+                marker = st.value.value
+    for c, s, b in closes:
+        guard = None
+        node_ = s
+        while getattr(node_, 'parent', None) is not None and node_ is not bake.node:
+            par = node_.parent
+            if isinstance(par, ast.If) and any(node_ is x for x in par.body):
+                guard = par.test
+                break
+            node_ = par
+        ok_guard = False
+        if isinstance(guard, ast.Compare) and len(guard.ops) == 1 and 'current_stage' in unparse(guard.left) + unparse(guard.comparators[0]):
+            other = guard.comparators[0] if 'current_stage' in unparse(guard.left) else guard.left
+            if isinstance(other, ast.Constant) and other.value == marker:
+                ok_guard = isinstance(guard.ops[0], ast.NotEq) or (marker is None and isinstance(guard.ops[0], ast.IsNot))
+        ctx.ob('C16.R5', bake, s.lineno, 'bake closes a stage only when one is open (comparison with the marker of "none open")',
+               ok_guard, fact=f"guard `{unparse(guard) if guard is not None else 'none'}`; marker {marker!r}",
+               why='with a truth test the marker itself counts as an open stage (and an open stage named \'\' as none): '
+                   'the record of the stages is overwritten or an open stage is left open', key='bake close guard')
